@@ -1,6 +1,6 @@
 """C10 - lookups are exact for every possible id and every name (clauses: PANIC, TABLE, DOM, ROLE)"""
 import re
-from engines import PanicScan, zero_test_edges, str_const
+from engines import PanicScan, zero_test_edges, str_const, adaptor_chain, TRUNCATING_ADAPTORS, bool_polarity
 from prov import Prov, field_names, params_of
 
 CLAIM = ("(PANIC) no panicking construct is reachable from the lookup entry points Ontology::{hpo, gene, gene_by_name, omim_disease, "
@@ -191,6 +191,28 @@ def run(ck, prog, ctx):
                 pat = pv.of_operand(b, t.args[1])
                 ok = name_side(recv, r"Disease") and qparam in params_of(pat, fb.id) and not name_side(pat, r"Disease") and qparam not in params_of(recv, fb.id)
                 ck.ob("ROLE", "%s/contains/%d" % (key, n), ok, "%s calls %s" % (key, "name.contains(query)" if ok else "str::contains with receiver/pattern that are not (disease name, query)"), where=b.where(t.line))
+    # every record is examined: no truncating adaptor between the record collection and the `find`
+    pvl = Prov(prog, inline=False, bind_closures=False)
+    for fid, key in (("ontology::Ontology::gene_by_name", "gene_by_name"), ("ontology::Ontology::omim_disease_by_name", "omim_disease_by_name"),
+                     ("<annotations::omim_disease::OmimDiseaseFilter<'a> as std::iter::Iterator>::next", "filter_next")):
+        fb0 = prog.body(fid)
+        if fb0 is None:
+            continue
+        finds = [(bi, t) for bi, t in fb0.calls() if t.callee.trait == "std::iter::Iterator" and t.callee.method in ("find", "find_map", "position", "filter")]
+        for bi, t in finds:
+            if t.callee.method != "find":
+                continue
+            chain = adaptor_chain(fb0, pvl, t.args[0])
+            cut = [m for m in chain if m in TRUNCATING_ADAPTORS]
+            ck.ob("ROLE", key + "/all-records", not cut, "%s examines %s" % (key, "every record" if not cut else "only the records that pass an extra `%s` before the name test: real matches can be dropped" % ", ".join(cut)), where=fb0.where(t.line))
+            cid = pv.closure_of_operand(fb0, t.args[1]) if len(t.args) > 1 else None
+            cb0 = prog.bodies.get(cid)
+            if cb0 is not None:
+                pol, ct = bool_polarity(cb0, pvl, lambda c: (c.method == "contains" and (c.impl_self or "").startswith("str")) or (c.trait == "std::cmp::PartialEq" and c.method == "eq"))
+                if pol is None:
+                    ck.undecided("ROLE", key + "/predicate-only", "the predicate is not a single name test", where=cb0.where())
+                else:
+                    ck.ob("ROLE", key + "/predicate-only", pol == 1, "%s selects a record iff the name test is %s" % (key, "true" if pol == 1 else "FALSE"), where=cb0.where())
     nx = prog.body("<annotations::omim_disease::OmimDiseaseFilter<'a> as std::iter::Iterator>::next")
     if ck.anchor("ROLE", "OmimDiseaseFilter::next", nx):
         sites = [(b, bi, t) for b in prog.family(nx) for bi, t in b.calls() if re.search(r"^core::str::<impl str>::contains", t.callee.def_args or "")]
